@@ -44,6 +44,7 @@ THEOREMS = [
 KF_OPPOSITE = "simplify/absval-merge-inclusive/opposite-bounds-same-text"
 KF_EMPTY = "simplify/equality-comes-back-empty"
 KF_REDUNDANT = "solve/redundant-float-equations/rank-inflated"
+KF_CANCEL = "simplify/test-point-in-binary64/cancelling-huge-coefficients"
 CMP_TEXT = ["<", "<=", ">", ">=", "=", "==", "!="]
 TOL = Fr(1, 10 ** 9)
 MARGIN = Fr(1, 10 ** 6)
@@ -332,6 +333,35 @@ def empty_lines(cases_text):
     return max([sum(1 for l in c.split("\n") if not l.strip()) for c in cases_text] or [0])
 
 
+def cancellation_ratio(tl, names):
+    """for one text line: max over variables of (sum of |coefficient| over the occurrences of the variable) / |net coefficient|.
+    _simplify1 decides the direction by evaluating the ORIGINAL text at a random point in binary64; when the occurrences
+    of a variable cancel over more than ~2**53 the evaluation is noise (F19)"""
+    zero = {nm: Fr(0) for nm in names}
+    try:
+        c = [Fr(1)]
+        l0, ml0 = U.ev2(tl.l, zero, c); r0, mr0 = U.ev2(tl.r, zero, c)
+        worst = Fr(1)
+        for nm in names:
+            env = dict(zero); env[nm] = Fr(1)
+            l1, ml1 = U.ev2(tl.l, env, c); r1, mr1 = U.ev2(tl.r, env, c)
+            net = (l1 - r1) - (l0 - r0)
+            mag = (ml1 + mr1) - (ml0 + mr0)
+            if mag == 0:
+                continue
+            if net == 0:
+                return None            # the variable cancels completely
+            worst = max(worst, mag / abs(net))
+        return worst
+    except ZeroDivisionError:
+        return Fr(1)                    # a divisor vanishes at the origin: rational line, not this class
+
+
+def boundaries(cases):
+    """the set of boundary hyperplanes (canonical form, comparator ignored) of a disjunction of linear cases"""
+    return frozenset((c[1], c[2]) for case in cases for c in U.canon_sys(case))
+
+
 def known_classes(text, in_items, names, cases_text, out_items, exact):
     """-> (keys, effective input items): what the rewriting is still required to preserve inside a known-finding class.
     F16: opposite bounds with literally equal sides go through merge(inclusive=True).
@@ -341,6 +371,9 @@ def known_classes(text, in_items, names, cases_text, out_items, exact):
     keys = []
     items = list(in_items)
     n = len(names)
+    ratios = [cancellation_ratio(U.TextLine(l), names) for l in U.lines_of(text)]
+    if any(r is None or r >= 2 ** 20 for r in ratios):
+        return [KF_CANCEL], items       # inside this class only the boundaries are required to be preserved (post_simplify)
     if opposite_pairs(text):
         keys.append(KF_OPPOSITE)
         items = [U.translate_line(l, names) for l in effective_input(text)]
@@ -588,7 +621,12 @@ def post_simplify(rec, replies, rng, hist, findings):
         r2 = parse_reply(replies[1])
         acc2 = r2[1]["accept"] == "true"
         eff = [U.pitem(i) for i in rec["eff_items"]]
-        if not (exact and acc2):
+        if keys == [KF_CANCEL]:
+            # strongest true variant inside F19: the isolation algebra is exact, only the direction is unreliable
+            if exact and boundaries(U.expand(rec["in_items"], n)) != boundaries(rec["out_items"]):
+                findings.append(Finding("monitor", "simplify/known-class/other-defect",
+                                        "beyond the known defect (%s): the returned lines do not have the boundaries of the input" % (keys,), case_of(rec)))
+        elif not (exact and acc2):
             # strongest true variant inside the class: the result must be equivalent to the input after the known mis-step
             done2 = False
             pt2, a2, b2, _ = separating_point(item_side(rec["eff_items"]), rec["out_tls"], items_all + rec["eff_items"], names, rng, exact)
@@ -1126,7 +1164,8 @@ def run_shard(pid, seed, shard, ncases, tier, extra):
 
 
 # ------------------------------------------------------------------ known-finding witnesses (run first)
-WITNESSES = [("x0 >= 1\nx0 <= 1\nx1 > 0", KF_OPPOSITE), ("x0 > 1\nx0 < 1\nx1 > 0", KF_OPPOSITE), ("x0 >= 1\nx0 < 1\nx1 > 0", KF_OPPOSITE),
+WITNESSES = [("-1000000000000000000000001*x0 - 13 + 1000000000000000000000007*x0 > -1\nx1 > 0", KF_CANCEL),
+             ("x0 >= 1\nx0 <= 1\nx1 > 0", KF_OPPOSITE), ("x0 > 1\nx0 < 1\nx1 > 0", KF_OPPOSITE), ("x0 >= 1\nx0 < 1\nx1 > 0", KF_OPPOSITE),
              ("(-5)/x0 = 0\nx1 > 0", KF_EMPTY), ("(-12.0)/(6.0*x0) = 1500000000000000.0\nx1 > 0", KF_EMPTY)]
 
 
@@ -1138,6 +1177,8 @@ def witnesses():
     findings = []
     names = ["x0", "x1"]
     for w, key in WITNESSES:
+        import random as _r
+        _r.seed(0)
         out = S.simplify(w, all=True)
         cases = [] if out is None else ([out] if isinstance(out, str) else list(out))
         in_tls = [U.TextLine(l) for l in U.lines_of(w)]
